@@ -1,10 +1,10 @@
 SPECIFICATION Spec
 VIEW view
 CONSTANTS
-  Uris = {"u1","u2"}
-  Texts = {"t1"}
+  Uris = {"u1"}
+  Texts = {"t1","t2"}
   MaxMsgs = 3
-  MsgKinds = {"open","close","rename"}
+  MsgKinds = {"open","change","close","watch"}
   MaxCfg = 0
   MaxDisk = 0
   OnDisk = {"u1"}
